@@ -18,6 +18,8 @@ import (
 
 type bombRec struct {
 	Ev       string `json:"ev"`
+	Prefix   string `json:"prefix"`
+	PLen     int    `json:"plen"`
 	Shape    string `json:"shape"`
 	N        int    `json:"n"`
 	Closed   bool   `json:"closed"`
@@ -31,7 +33,7 @@ type bombRec struct {
 	WallMs   int64  `json:"wall_ms"`
 }
 
-func bombInput(shape string, n int, closed bool) []byte {
+func bombInput(shape string, n int, closed bool, prefix string) []byte {
 	units := map[string]string{"arr": "[", "obj": `{"k":`, "mixed": `[{"k":`, "pad": " [", "arrc": "["}
 	closers := map[string]string{"arr": "]", "obj": "}", "mixed": "}]", "pad": "]", "arrc": "]"}
 	u, ok := units[shape]
@@ -41,6 +43,7 @@ func bombInput(shape string, n int, closed bool) []byte {
 	}
 	var b bytes.Buffer
 	b.Grow(n*(len(u)+2) + 2)
+	b.WriteString(prefix)
 	b.WriteString(strings.Repeat(u, n))
 	if closed && shape == "arrc" {
 		b.WriteByte(',') // a comma where a value must stand: never well-formed
@@ -62,11 +65,13 @@ func bombMain(args []string) int {
 	limit := fs.Int64("limit", 0, "read limit")
 	entry := fs.String("entry", "Detect", "Detect|DetectReader|json|geo|har|gltf|ndjson")
 	maxStack := fs.Int("maxstack", 32<<20, "debug.SetMaxStack")
+	prefixKind := fs.String("prefix", "", "a valid beginning placed before the units: lead0 | leadq | leadobj")
 	fs.Parse(args)
 
 	debug.SetMaxStack(*maxStack)
-	in := bombInput(*shape, *n, *closed)
-	rec := bombRec{Ev: "bomb", Shape: *shape, N: *n, Closed: *closed, Limit: *limit, Entry: *entry}
+	prefixes := map[string]string{"": "", "lead0": "[0,", "leadq": `["\"",`, "leadobj": `{"a":0,"k":`}
+	in := bombInput(*shape, *n, *closed, prefixes[*prefixKind])
+	rec := bombRec{Ev: "bomb", Prefix: *prefixKind, PLen: len(prefixes[*prefixKind]), Shape: *shape, N: *n, Closed: *closed, Limit: *limit, Entry: *entry}
 	mimetype.VerifSetJSONHook(func(e mimetype.VerifJSONEvent) {
 		switch e.Kind {
 		case "lvl":
